@@ -823,3 +823,17 @@ Proof. vm_compute. reflexivity. Qed.
 Example two_updates_all_retried :
   run (flat_map (fun o => [o; o]) two_updates) = run two_updates.
 Proof. vm_compute. reflexivity. Qed.
+
+(* the hypotheses of the "re-sent later" theorems hold along the example history: each request is answered as required *)
+Example retry_hypotheses_satisfiable :
+  snd (step init (CreateBatch 1 1 1 true)) = ok [1] /\
+  snd (step (run (firstn 1 two_updates)) (CreateUpdate 1 1 10 2 1)) = ok [1; 1; 1] /\
+  snd (step (run (firstn 2 two_updates)) (CreateGroups 1 1 1 [mkGspec 1 (Some 0) 0])) = ok [] /\
+  fst (step (run (firstn 3 two_updates))
+         (CreateJobs 1 1 1 [mkJspec 1 None 1 [] [] false 1000 0; mkJspec 2 None 1 [] [1] false 1000 0])) <> run (firstn 3 two_updates) /\
+  snd (step (run (firstn 4 two_updates)) (Commit 1 1 1)) = ok [0] /\
+  snd (step (run (firstn 5 two_updates)) (CreateUpdate 1 1 11 3 0)) = ok [2; 2; 3].
+Proof.
+  repeat split; try (vm_compute; reflexivity).
+  intros H. apply (f_equal (fun s => length (jobs s))) in H. vm_compute in H. discriminate.
+Qed.
